@@ -125,6 +125,10 @@ func s3Aliasing() []BashCase {
 		"var-decl-empty":      {VarDecl{Names: []string{"a"}, Type: TSliceString}, VarDecl{Names: []string{"b"}, Type: TSliceString}, SliceSet{"a", il(0), sl("x")}, pr(Len{vr("a")}, Len{vr("b")})},
 		"reassign":            {def("a", I(1)), def("b", I(2, 3)), set("a", vr("b")), SliceSet{"a", il(0), il(7)}, pr(Index{"b", il(0)}, Len{vr("a")}), set("b", I()), pr(Len{vr("b")}, Len{vr("a")})},
 		"bool-and-string":     {def("f", SliceLit{TBool, []Expr{bl(true), bl(false)}}), def("s", SliceLit{TString, []Expr{sl("a b"), sl("")}}), def("g", vr("f")), def("t", vr("s")), SliceSet{"g", il(1), bl(true)}, SliceSet{"t", il(1), sl("c d")}, pr(Index{"f", il(1)}, framed(Index{"s", il(1)}), framed(Index{"s", il(0)}))},
+		"two-literals-as-arguments": {fn("both", []Param{{"x", TSliceInt}, {"y", TSliceInt}}, nil, SliceSet{"x", il(0), il(9)}, pr(Len{vr("x")}, Len{vr("y")}, Index{"x", il(0)}, Index{"y", il(0)})), callS("both", I(1), I(2, 3))},
+		"two-literals-returned":     {fn("pair", nil, []Type{TSliceString, TSliceString}, ret(SliceLit{TString, []Expr{sl("a")}}, SliceLit{TString, []Expr{sl("b"), sl("c")}})), VarDecl{Names: []string{"p", "q"}, Short: true, Values: []Expr{call("pair")}}, pr(Len{vr("p")}, Len{vr("q")}, Index{"p", il(0)}, Index{"q", il(1)}), SliceSet{"p", il(0), sl("z")}, pr(Index{"q", il(0)})},
+		"two-literals-defined":      {VarDecl{Names: []string{"a", "b"}, Short: true, Values: []Expr{I(1), I(2, 3)}}, SliceSet{"a", il(0), il(7)}, pr(Len{vr("a")}, Len{vr("b")}, Index{"a", il(0)}, Index{"b", il(0)})},
+		"literal-in-literal-call":   {fn("first", []Param{{"x", TSliceInt}}, []Type{TInt}, ret(Index{"x", il(0)})), def("a", SliceLit{TInt, []Expr{call("first", I(5, 6)), call("first", I(7))}}), pr(Len{vr("a")}, Index{"a", il(0)}, Index{"a", il(1)})},
 		"two-digit-indices":   {VarDecl{Names: []string{"a"}, Type: TSliceInt}, forUp("i", 25, SliceSet{"a", vr("i"), bin("*", vr("i"), vr("i"))}), pr(Len{vr("a")}, Index{"a", il(9)}, Index{"a", il(10)}, Index{"a", il(11)}, Index{"a", il(24)}), SliceSet{"a", il(10), il(-1)}, pr(Index{"a", il(1)}, Index{"a", il(10)}, Index{"a", il(0)})},
 		"element-as-index":    {def("a", I(2, 0, 1)), pr(Index{"a", Index{"a", il(0)}}, Index{"a", Index{"a", Index{"a", il(0)}}}), SliceSet{"a", Index{"a", il(1)}, il(9)}, pr(Index{"a", il(0)})},
 	}
